@@ -214,6 +214,8 @@ VARIANTS = [
     V( 'string-pad-by-length-of-text', 'server/enip/parser.py', "predicate=lambda path=None, data=None, **kwds: (\n 0 == data[path].length % 2 and len( data[path].string ) == data[path].length ),", "predicate=lambda source=None, path=None, data=None, **kwds: (\n                                        len( data[path].string ) % 2 == 0 and len( data[path].string ) == data[path].length ),", silent=[ 'G-PADPOS', 'G-EXACT' ] ),
     V( 'cip-types-validators-made-in-loop', CLIENT, "def parse_operations( tags, fragment=False, int_type=None, **kwds ):", "for _int,_lo,_hi in (( parser.USINT, 0, 2**8-1 ), ( parser.UINT, 0, 2**16-1 )):\n    CIP_TYPES[_int.__name__]	= ( _int.tag_type, _int.struct_calcsize, lambda x: int_validate( x, _lo, _hi ))\n\ndef parse_operations( tags, fragment=False, int_type=None, **kwds ):", fires=[ 'W-LATEBIND' ], why='round 13 C12/1' ),
     V( 'cip-types-validators-made-in-comprehension', CLIENT, "def parse_operations( tags, fragment=False, int_type=None, **kwds ):", "CIP_TYPES.update( dict( [ ( _int.__name__, ( _int.tag_type, _int.struct_calcsize, lambda x: int_validate( x, _lo, _hi ))) for _int,_lo,_hi in (( parser.USINT, 0, 2**8-1 ), ( parser.UINT, 0, 2**16-1 )) ] ))\n\ndef parse_operations( tags, fragment=False, int_type=None, **kwds ):", fires=[ 'W-LATEBIND' ] ),
+    V( 'loop-callables-used-up-in-the-round', CLIENT, "def parse_operations( tags, fragment=False, int_type=None, **kwds ):", "def _harmless( rows, xs ):\n    out = []\n    for k in rows:\n        out.append( list( map( lambda x: x + k, xs )))\n        out.append( ','.join( map( lambda x: str( x + k ), xs )))\n        def once():\n            return k + 1\n        out.append( once() )\n        for y in filter( lambda x: x > k, xs ):\n            out.append( y )\n    return out\n\ndef parse_operations( tags, fragment=False, int_type=None, **kwds ):", silent=[ 'W-LATEBIND' ] ),
+    V( 'loop-helper-kept-beyond-the-round', CLIENT, "def parse_operations( tags, fragment=False, int_type=None, **kwds ):", "def _harmful( rows ):\n    out = []\n    for k in rows:\n        def later():\n            return k + 1\n        out.append( later )\n    return out\n\ndef parse_operations( tags, fragment=False, int_type=None, **kwds ):", fires=[ 'W-LATEBIND' ] ),
     V( 'cip-types-validators-bound-by-default', CLIENT, "def parse_operations( tags, fragment=False, int_type=None, **kwds ):", "for _int,_lo,_hi in (( parser.USINT, 0, 2**8-1 ), ( parser.UINT, 0, 2**16-1 )):\n    CIP_TYPES[_int.__name__]	= ( _int.tag_type, _int.struct_calcsize, lambda x, _lo=_lo, _hi=_hi: int_validate( x, _lo, _hi ))\n\ndef parse_operations( tags, fragment=False, int_type=None, **kwds ):", silent=[ 'W-LATEBIND' ] ),
     V( 'path-elements-inner-range-accepted', DEVICE, "assert c in (None,1), \"Only final path segment may specify multiple elements: %r\" % ( path )", "assert c in (None,1,2), \"Only final path segment may specify multiple elements: %r\" % ( path )", fires=[ 'T-PATHELEMS' ] ),
     V( 'path-elements-earlier-terms-dropped', DEVICE, "segments	       += s\n s,elm,cnt", "segments		= s\n    s,elm,cnt", fires=[ 'T-PATHELEMS' ] ),
